@@ -18,12 +18,16 @@ CLAIMED["C09"] = dict(
    text="Theorems in coq/props/C09.v over a byte-level model of the record codec (encode, readRecordAt, DataStreamReader.Next/nextValid): "
         "for ALL valid records and ALL record lists: length is exactly ceil((24+k+v)/256) blocks, positional read of an encoded record returns it "
         "whatever follows, a sequential scan of any concatenation yields every record with its offset and no error, and nothing is returned by a "
-        "positional read without size limits and CRC over exactly the returned bytes having been checked. The resynchronisation clause is "
-        "REFUTED for the code as it stands (C09_scan_huge_vsz_refuted, known finding F2) with a replayed witness. Byte-level correspondence on "
+        "positional read without size limits and CRC over exactly the returned bytes having been checked. C09_scan_resyncs (proofs/RecordResync.v): "
+        "for ALL files rs1 ++ damaged region of n whole blocks ++ rs2 in which no damaged block parses as a record and the first damaged header "
+        "fails in a contained way (bad sizes, or checksum mismatch with sizes inside the file), the scan yields all of rs1, skips exactly the "
+        "region and yields EVERY record of rs2 at its true offset, without error. Outside that condition the resynchronisation clause is "
+        "REFUTED for the code as it stands (C09_scan_huge_vsz_refuted, known finding F2: a size field claiming an extent past EOF) with a replayed witness. Byte-level correspondence on "
         "seeded clean and damaged files (bit/byte flips, size-field damage, zeroed blocks, truncations, embedded record images): file bytes, "
         "offsets, per-block positional outcomes, scan results incl. sizeBroken and end status; a separate spec oracle judges the implementation's outputs.",
-   note="PARTIAL: single-byte damage detection via CRC injectivity and the general resync theorem are not yet proved (correspondence + oracle only); "
-        "CRC collisions are a limit of the format. Trusted: Coq kernel, translator, Go harness, python oracle. No axioms.",
+   note="PARTIAL: that a damaged block does NOT parse (CRC-32 detects the alteration) is a hypothesis of the resync theorem, not a theorem -- "
+        "single-byte / burst detection by CRC-32 is not proved, CRC collisions are a limit of the format; damage that is not block-aligned in "
+        "length (truncation inside a block) is covered by correspondence + oracle only. Trusted: Coq kernel, translator, Go harness, python oracle. No axioms.",
    technique="Rocq proof of codec round-trip/layout/soundness over a byte-level model + refutation witness; byte-level differential correspondence incl. fault stream",
    design="6/C09")
 CLAIMED["C14"] = dict(
